@@ -27,7 +27,7 @@ def q(tier, quick, thorough):
 
 
 def recipe(c: Check):
-    c.build(["Properties/C13.vo", "Corr/C13.vo"], harness=["c13"])
+    c.build(["Properties/C13.vo", "Corr/C13.vo"], harness=["c13"], units=["c13locks"])
     c.obligations("C13")
     st = c.run_driver("groups", q(c.tier, 240, 3000), shards=q(c.tier, 4, 16), timeout=1500)
     ctr = c.cov.get("coq_counters", {}).get("groups", {})
